@@ -570,7 +570,9 @@ func c14PropsCalm(c *c14ctx, v *ref.V) {
 		}
 		for i := range n.M {
 			if j := strings.IndexByte(n.M[i].K, '='); j >= 0 {
-				if _, clash := n.Get(n.M[i].K[:j]); clash && j > 0 {
+				// (... nor be the spelling of an integer: read back, that would be a position in an array)
+				_, intErr := strconv.Atoi(strings.TrimSpace(n.M[i].K[:j]))
+				if _, clash := n.Get(n.M[i].K[:j]); (clash || intErr == nil) && j > 0 {
 					k := strings.ReplaceAll(n.M[i].K, "=", "e") + "_"
 					for {
 						if _, dup := n.Get(k); !dup {
